@@ -10,7 +10,8 @@ C. `recover_genuine`: from ANY `d` distinct packets of a genuine group the recov
 D. `decode_completes` / `decode_incomplete` / `decode_duplicate`: one `decode` call
 E. the invariant `SetsGenuine`, kept by `decode` of any genuine packet (`decode_preserves`),
    under which every returned shard is an original body (`decode_sound`, `dec_sound_list`,
-   `dec_sound_new`); genuine packets never start tuning (`decode_stable`, `stable_list`);
+   `dec_sound_new`); genuine packets never start tuning (`decode_fields`, `stable_list`) nor panic
+   (`decode_no_panic`);
    a fresh decoder recovers a group anywhere in the id space (`fresh_decoder_anywhere`, D13)
 -/
 import KcpVerif.Lemmas.FecSpec
@@ -79,6 +80,15 @@ theorem le_foldr_max (l : List Nat) (x : Nat) (h : x ∈ l) : x ≤ l.foldr max 
     · exact Nat.le_max_left _ _
     · exact Nat.le_trans (ih h) (Nat.le_max_right _ _)
 
+theorem foldr_max_le (l : List Nat) (B : Nat) (h : ∀ x ∈ l, x ≤ B) : l.foldr max 0 ≤ B := by
+  induction l with
+  | nil => exact Nat.zero_le _
+  | cons a l ih =>
+    simp only [List.foldr_cons]
+    have h1 := h a (List.mem_cons_self ..)
+    have h2 := ih (fun x hx => h x (List.mem_cons_of_mem _ hx))
+    omega
+
 section GroupFacts
 variable {C : CodecNew} {G : Group}
 
@@ -101,6 +111,19 @@ theorem two_le_maxLen (hG : G.WF) : 2 ≤ G.maxLen := by
     have := body_le_maxLen _ this
     rw [length_bodyOf] at this
     omega
+
+/-- the longest body fits a pool buffer behind the FEC header -/
+theorem maxLen_le (hG : G.WF) : G.maxLen + fecHeaderSize ≤ mtuLimit := by
+  have : G.maxLen ≤ mtuLimit - fecHeaderSize := by
+    apply foldr_max_le
+    intro x hx
+    obtain ⟨b, hb, rfl⟩ := List.mem_map.1 hx
+    obtain ⟨pl, hpl, rfl⟩ := List.mem_map.1 hb
+    have := hG.size pl hpl
+    rw [length_bodyOf]
+    omega
+  have h2 : fecHeaderSize ≤ mtuLimit := by decide
+  omega
 
 theorem length_dataShards (hG : G.WF) : G.dataShards.length = G.d := by
   simp only [Group.dataShards, List.length_map, length_bodies hG]
@@ -324,6 +347,30 @@ theorem wireBody_le (hC : Lawful C) (hG : G.WF) (i : Nat) (hi : i < G.n) :
   · rename_i h
     exact Nat.le_of_eq (parity_getD_size hC hG i hi (by omega))
 
+/-- a genuine packet fits a pool buffer -/
+theorem length_packet_le (hC : Lawful C) (hG : G.WF) (i : Nat) (hi : i < G.n) :
+    (G.packet C i).length ≤ mtuLimit := by
+  have h1 := wireBody_le hC hG i hi
+  have h2 := maxLen_le hG
+  simp only [Group.packet, List.length_append, length_le32, length_le16]
+  simp only [fecHeaderSize] at h2
+  omega
+
+/-- the re-slice of the recovery block cannot fail on genuine packets -/
+theorem recoverPanics_genuine (hC : Lawful C) (hG : G.WF) (dec : Decoder) (idxs : List Nat)
+    (hb : ∀ i ∈ idxs, i < G.n) : recoverPanics dec (idxs.map (G.packet C)) = false := by
+  have h1 : maxBody (idxs.map (G.packet C)) ≤ G.maxLen := by
+    apply maxBody_le
+    intro q hq
+    obtain ⟨a, ha, rfl⟩ := List.mem_map.1 hq
+    rw [body_packet]
+    exact wireBody_le hC hG a (hb a ha)
+  have h2 := maxLen_le hG
+  have h3 : decide (maxBody (idxs.map (G.packet C)) + fecHeaderSize > mtuLimit) = false := by
+    rw [decide_eq_false_iff_not]; omega
+  unfold recoverPanics
+  rw [h3, Bool.and_false]
+
 /-- shard `i` of the codeword is the zero-padded body of packet `i` -/
 theorem codeword_getElem? (hC : Lawful C) (hG : G.WF) (i : Nat) (hi : i < G.n) :
     (G.codeword C)[i]? = some (pad G.maxLen (G.wireBody C i)) := by
@@ -512,7 +559,8 @@ def place (dec1 : Decoder) (inp : Bytes) : DecOut :=
     let sets := store { id := shardId, pkts := if full then [] else pkts } dec1.sets
     let newest :=
       if itimediff (shardId * u32 dec1.n) (base * u32 dec1.n) > 0 then shardId else base
-    { st := { dec1 with sets := discard dec1.n newest sets, newest := newest }, recovered := recovered }
+    { st := { dec1 with sets := discard dec1.n newest sets, newest := newest }, recovered := recovered,
+      panic := decide (inp.length > mtuLimit) || (full && recoverPanics dec1 pkts) }
 
 /-- `dec` after the `Sample` call of `decode` -/
 def sampled (dec : Decoder) (inp : Bytes) : Decoder :=
@@ -598,12 +646,11 @@ theorem place_dup (hG : G.WF) (dec1 : Decoder) (hn : dec1.n = G.n) (got : List N
   rw [← hn]
 
 /-- a new packet of the group: what is returned and the complete successor state -/
-theorem place_new (hG : G.WF) (dec1 : Decoder) (hn : dec1.n = G.n) (got : List Nat)
+theorem place_new_st (hG : G.WF) (dec1 : Decoder) (hn : dec1.n = G.n) (got : List Nat)
     (hb : ∀ i ∈ got, i < G.n) (hset : held (G.base / u32 G.n) dec1 = got.map (G.packet C))
     (j : Nat) (hj : j < G.n) (hnot : j ∉ got) :
     (place dec1 (G.packet C j)).recovered
         = (if got.length + 1 ≥ dec1.d then recover dec1 ((got ++ [j]).map (G.packet C)) else []) ∧
-    (place dec1 (G.packet C j)).panic = false ∧
     (place dec1 (G.packet C j)).st =
       { dec1 with
         sets := discard G.n (newestOf G.n (G.base / u32 G.n) dec1) (store
@@ -615,10 +662,62 @@ theorem place_new (hG : G.WF) (dec1 : Decoder) (hn : dec1.n = G.n) (got : List N
   simp only [hn, shardId_packet hG j hj, hset, any_seqid hG got hb j hj, hnot, decide_false,
     Bool.false_eq_true, if_false, List.length_append, List.length_map, List.length_cons,
     List.length_nil, Nat.zero_add, decide_eq_true_eq, List.map_append, List.map_cons, List.map_nil]
-  exact ⟨trivial, trivial, trivial⟩
+  exact ⟨trivial, trivial⟩
+
+/-- the two slice-bounds panics of `decode`, whatever the state -/
+theorem place_panic_true (dec1 : Decoder) (inp : Bytes) (h : (place dec1 inp).panic = true) :
+    inp.length > mtuLimit ∨
+      recoverPanics dec1 (held (seqid inp / u32 dec1.n) dec1 ++ [inp]) = true := by
+  unfold place at h
+  unfold held
+  simp only [] at h
+  split at h
+  · cases h
+  · simp only [Bool.or_eq_true, Bool.and_eq_true, decide_eq_true_eq] at h
+    rcases h with h | h
+    · exact Or.inl h
+    · exact Or.inr h.2
+
+/-- no panic on a genuine packet when the set holds genuine packets -/
+theorem place_panic (hC : Lawful C) (hG : G.WF) (dec1 : Decoder) (hn : dec1.n = G.n)
+    (got : List Nat) (hb : ∀ i ∈ got, i < G.n)
+    (hset : held (G.base / u32 G.n) dec1 = got.map (G.packet C)) (j : Nat) (hj : j < G.n) :
+    (place dec1 (G.packet C j)).panic = false := by
+  cases hp : (place dec1 (G.packet C j)).panic with
+  | false => rfl
+  | true =>
+    exfalso
+    rcases place_panic_true dec1 _ hp with h | h
+    · have := length_packet_le hC hG j hj
+      omega
+    · rw [hn, shardId_packet hG j hj, hset] at h
+      have h2 := recoverPanics_genuine hC hG dec1 (got ++ [j])
+        (by
+          intro i hi
+          rcases List.mem_append.1 hi with h | h
+          · exact hb i h
+          · rw [List.mem_singleton] at h; exact h ▸ hj)
+      rw [List.map_append, List.map_cons, List.map_nil, h] at h2
+      cases h2
+
+theorem place_new (hC : Lawful C) (hG : G.WF) (dec1 : Decoder) (hn : dec1.n = G.n) (got : List Nat)
+    (hb : ∀ i ∈ got, i < G.n) (hset : held (G.base / u32 G.n) dec1 = got.map (G.packet C))
+    (j : Nat) (hj : j < G.n) (hnot : j ∉ got) :
+    (place dec1 (G.packet C j)).recovered
+        = (if got.length + 1 ≥ dec1.d then recover dec1 ((got ++ [j]).map (G.packet C)) else []) ∧
+    (place dec1 (G.packet C j)).panic = false ∧
+    (place dec1 (G.packet C j)).st =
+      { dec1 with
+        sets := discard G.n (newestOf G.n (G.base / u32 G.n) dec1) (store
+          ⟨G.base / u32 G.n, if got.length + 1 ≥ dec1.d then [] else (got ++ [j]).map (G.packet C)⟩
+          dec1.sets),
+        newest := newestOf G.n (G.base / u32 G.n) dec1 } := by
+  obtain ⟨h1, h3⟩ := place_new_st hG dec1 hn got hb hset j hj hnot
+  exact ⟨h1, place_panic hC hG dec1 hn got hb hset j hj, h3⟩
 
 /-- `place_new` without the value of the new `newest` -/
-theorem place_new_ex (hG : G.WF) (dec1 : Decoder) (hn : dec1.n = G.n) (got : List Nat)
+theorem place_new_ex (hC : Lawful C) (hG : G.WF) (dec1 : Decoder) (hn : dec1.n = G.n)
+    (got : List Nat)
     (hb : ∀ i ∈ got, i < G.n) (hset : held (G.base / u32 G.n) dec1 = got.map (G.packet C))
     (j : Nat) (hj : j < G.n) (hnot : j ∉ got) :
     (place dec1 (G.packet C j)).recovered
@@ -630,7 +729,7 @@ theorem place_new_ex (hG : G.WF) (dec1 : Decoder) (hn : dec1.n = G.n) (got : Lis
           ⟨G.base / u32 G.n, if got.length + 1 ≥ dec1.d then [] else (got ++ [j]).map (G.packet C)⟩
           dec1.sets),
         newest := nw } := by
-  obtain ⟨h1, h2, h3⟩ := place_new hG dec1 hn got hb hset j hj hnot
+  obtain ⟨h1, h2, h3⟩ := place_new hC hG dec1 hn got hb hset j hj hnot
   exact ⟨h1, h2, _, h3⟩
 
 theorem pairwise_snoc (got : List Nat) (hnd : got.Pairwise (· ≠ ·)) (j : Nat) (hnot : j ∉ got) :
@@ -661,7 +760,7 @@ theorem decode_completes (hC : Lawful C) (hG : G.WF) (dec : Decoder) (hM : Match
     (dec.decode C (G.packet C j)).panic = false := by
   rw [decode_genuine_eq hG dec hM j hj]
   have hM' := hM.sampled (G.packet C j)
-  obtain ⟨h1, h2, _⟩ := place_new hG (sampled dec (G.packet C j)) hM'.n got hb hset j hj hnot
+  obtain ⟨h1, h2, _⟩ := place_new hC hG (sampled dec (G.packet C j)) hM'.n got hb hset j hj hnot
   refine ⟨?_, h2⟩
   rw [h1, if_pos (by rw [hM'.d]; omega)]
   exact recover_genuine hC hG _ hM'.d hM'.n hM'.codec _ (pairwise_snoc got hnd j hnot)
@@ -698,18 +797,27 @@ theorem decode_completes_first (hC : Lawful C) (hG : G.WF) (dec : Decoder) (hM :
   decode_completes hC hG dec hM [] List.Pairwise.nil (fun i hi => by cases hi)
     (held_of_lookup_none _ _ hset) (by rw [hd1]; rfl) j hj (fun h => by cases h)
 
+/-- fewer than `d` packets after this one: nothing is returned (any codec) -/
+theorem decode_incomplete_recovered (hG : G.WF) (dec : Decoder) (hM : Matches C G dec)
+    (got : List Nat) (hb : ∀ i ∈ got, i < G.n)
+    (hset : held (G.base / u32 G.n) dec = got.map (G.packet C))
+    (hlen : got.length + 1 < G.d) (j : Nat) (hj : j < G.n) (hnot : j ∉ got) :
+    (dec.decode C (G.packet C j)).recovered = [] := by
+  rw [decode_genuine_eq hG dec hM j hj]
+  have hM' := hM.sampled (G.packet C j)
+  obtain ⟨h1, _⟩ := place_new_st hG (sampled dec (G.packet C j)) hM'.n got hb hset j hj hnot
+  rw [h1, if_neg (by rw [hM'.d]; omega)]
+
 /-- fewer than `d` packets after this one: nothing is returned -/
-theorem decode_incomplete (hG : G.WF) (dec : Decoder) (hM : Matches C G dec)
+theorem decode_incomplete (hC : Lawful C) (hG : G.WF) (dec : Decoder) (hM : Matches C G dec)
     (got : List Nat) (hb : ∀ i ∈ got, i < G.n)
     (hset : held (G.base / u32 G.n) dec = got.map (G.packet C))
     (hlen : got.length + 1 < G.d) (j : Nat) (hj : j < G.n) (hnot : j ∉ got) :
     (dec.decode C (G.packet C j)).recovered = [] ∧
     (dec.decode C (G.packet C j)).panic = false := by
+  refine ⟨decode_incomplete_recovered hG dec hM got hb hset hlen j hj hnot, ?_⟩
   rw [decode_genuine_eq hG dec hM j hj]
-  have hM' := hM.sampled (G.packet C j)
-  obtain ⟨h1, h2, _⟩ := place_new hG (sampled dec (G.packet C j)) hM'.n got hb hset j hj hnot
-  refine ⟨?_, h2⟩
-  rw [h1, if_neg (by rw [hM'.d]; omega)]
+  exact place_panic hC hG _ (hM.sampled (G.packet C j)).n got hb hset j hj
 
 /-- a packet that is already in the set changes nothing but the auto-tune sample window -/
 theorem decode_duplicate (hG : G.WF) (dec : Decoder) (hM : Matches C G dec)
@@ -836,10 +944,10 @@ theorem place_fields (dec1 : Decoder) (inp : Bytes) :
     (place dec1 inp).st.d = dec1.d ∧ (place dec1 inp).st.p = dec1.p ∧
     (place dec1 inp).st.n = dec1.n ∧ (place dec1 inp).st.paws = dec1.paws ∧
     (place dec1 inp).st.codec = dec1.codec ∧ (place dec1 inp).st.shouldTune = dec1.shouldTune ∧
-    (place dec1 inp).st.tune = dec1.tune ∧ (place dec1 inp).panic = false := by
+    (place dec1 inp).st.tune = dec1.tune := by
   unfold place
   simp only []
-  split <;> exact ⟨rfl, rfl, rfl, rfl, rfl, rfl, rfl, rfl⟩
+  split <;> exact ⟨rfl, rfl, rfl, rfl, rfl, rfl, rfl⟩
 
 section Sound
 variable {C : CodecNew} {G : Group}
@@ -850,21 +958,20 @@ theorem Steady.matches {dec : Decoder} (hS : Steady C dec) (hd : G.d = dec.d) (h
    by rw [hS.paws, hS.n_eq, Group.n, hd, hp], hS.tune⟩
 
 /-- **C16 `stable`, one step.**  A genuine packet of the decoder's own ratio never triggers
-    tuning: ratio, `paws`, codec and `shouldTune = false` are kept, and there is no panic. -/
-theorem decode_stable (hG : G.WF) (dec : Decoder) (hS : Steady C dec) (hd : G.d = dec.d)
+    tuning: ratio, `paws`, codec and `shouldTune = false` are kept (any codec, any shard sets). -/
+theorem decode_fields (hG : G.WF) (dec : Decoder) (hS : Steady C dec) (hd : G.d = dec.d)
     (hp : G.p = dec.p) (j : Nat) (hj : j < G.n) :
     (dec.decode C (G.packet C j)).st.d = dec.d ∧ (dec.decode C (G.packet C j)).st.p = dec.p ∧
     (dec.decode C (G.packet C j)).st.n = dec.n ∧ (dec.decode C (G.packet C j)).st.paws = dec.paws ∧
     (dec.decode C (G.packet C j)).st.codec = dec.codec ∧
-    (dec.decode C (G.packet C j)).st.shouldTune = false ∧
-    (dec.decode C (G.packet C j)).panic = false := by
+    (dec.decode C (G.packet C j)).st.shouldTune = false := by
   rw [decode_genuine_eq hG dec (hS.matches hd hp) j hj]
-  obtain ⟨h1, h2, h3, h4, h5, h6, _, h8⟩ := place_fields (sampled dec (G.packet C j)) (G.packet C j)
-  exact ⟨h1, h2, h3, h4, h5, h6.trans hS.tune, h8⟩
+  obtain ⟨h1, h2, h3, h4, h5, h6, _⟩ := place_fields (sampled dec (G.packet C j)) (G.packet C j)
+  exact ⟨h1, h2, h3, h4, h5, h6.trans hS.tune⟩
 
 theorem decode_steady (hG : G.WF) (dec : Decoder) (hS : Steady C dec) (hd : G.d = dec.d)
     (hp : G.p = dec.p) (j : Nat) (hj : j < G.n) : Steady C (dec.decode C (G.packet C j)).st := by
-  obtain ⟨h1, h2, h3, h4, h5, h6, _⟩ := decode_stable hG dec hS hd hp j hj
+  obtain ⟨h1, h2, h3, h4, h5, h6⟩ := decode_fields hG dec hS hd hp j hj
   exact ⟨h6, by rw [h1, h2, h3]; exact hS.n_eq, by rw [h3, h4]; exact hS.paws,
     by rw [h1, h2, h5]; exact hS.codec⟩
 
@@ -892,6 +999,31 @@ theorem held_genuine (grp : Family) (dec : Decoder) (hI : SetsGenuine C grp dec)
     cases h1
     exact ⟨idxs, h6, h7, h9, h8⟩
 
+/-- under the invariant a genuine packet never hits one of the slice-bounds panics -/
+theorem decode_no_panic (hC : Lawful C) (grp : Family) (dec : Decoder) (hS : Steady C dec)
+    (hI : SetsGenuine C grp dec) (hG : G.WF) (hgrp : grp (G.base / u32 G.n) = some G)
+    (hd : G.d = dec.d) (hp : G.p = dec.p) (j : Nat) (hj : j < G.n) :
+    (dec.decode C (G.packet C j)).panic = false := by
+  have hM := hS.matches (G := G) hd hp
+  rw [decode_genuine_eq hG dec hM j hj]
+  have hM' := hM.sampled (G.packet C j)
+  have hI' : SetsGenuine C grp (sampled dec (G.packet C j)) := ⟨hI.genuine, hI.distinct⟩
+  obtain ⟨got, _, hb, _, hset⟩ := held_genuine grp _ hI' hG hgrp
+  exact place_panic hC hG _ hM'.n got hb hset j hj
+
+/-- `decode_fields` and `decode_no_panic` together.  The panic part needs the invariant (and a
+    lawful codec): a forged oversized packet left in the set could make the recovery block panic. -/
+theorem decode_stable (hC : Lawful C) (grp : Family) (hG : G.WF) (dec : Decoder)
+    (hS : Steady C dec) (hI : SetsGenuine C grp dec) (hgrp : grp (G.base / u32 G.n) = some G)
+    (hd : G.d = dec.d) (hp : G.p = dec.p) (j : Nat) (hj : j < G.n) :
+    (dec.decode C (G.packet C j)).st.d = dec.d ∧ (dec.decode C (G.packet C j)).st.p = dec.p ∧
+    (dec.decode C (G.packet C j)).st.n = dec.n ∧ (dec.decode C (G.packet C j)).st.paws = dec.paws ∧
+    (dec.decode C (G.packet C j)).st.codec = dec.codec ∧
+    (dec.decode C (G.packet C j)).st.shouldTune = false ∧
+    (dec.decode C (G.packet C j)).panic = false := by
+  obtain ⟨h1, h2, h3, h4, h5, h6⟩ := decode_fields hG dec hS hd hp j hj
+  exact ⟨h1, h2, h3, h4, h5, h6, decode_no_panic hC grp dec hS hI hG hgrp hd hp j hj⟩
+
 /-- the invariant is kept by `decode` of any genuine packet: duplicates, late packets after a
     recovery, other groups, discards -/
 theorem decode_preserves (grp : Family) (dec : Decoder) (hS : Steady C dec)
@@ -905,7 +1037,7 @@ theorem decode_preserves (grp : Family) (dec : Decoder) (hS : Steady C dec)
   obtain ⟨got, hnd, hb, hlt, hset⟩ := held_genuine grp _ hI' hG hgrp
   by_cases hmem : j ∈ got
   · rw [place_dup hG _ hM'.n got hb hset j hj hmem]; exact hI'
-  · obtain ⟨_, _, nw, hst⟩ := place_new_ex hG _ hM'.n got hb hset j hj hmem
+  · obtain ⟨_, hst⟩ := place_new_st hG _ hM'.n got hb hset j hj hmem
     rw [hst]
     constructor
     · intro s hs
@@ -953,7 +1085,7 @@ theorem decode_sound (hC : Lawful C) (grp : Family) (dec : Decoder) (hS : Steady
   intro r hr
   by_cases hmem : j ∈ got
   · rw [place_dup hG _ hM'.n got hb hset j hj hmem] at hr; cases hr
-  · obtain ⟨hrec, _, _⟩ := place_new hG _ hM'.n got hb hset j hj hmem
+  · obtain ⟨hrec, _⟩ := place_new_st hG _ hM'.n got hb hset j hj hmem
     rw [hrec] at hr
     split at hr
     · rename_i hfull
@@ -995,7 +1127,7 @@ theorem feed_aux (hC : Lawful C) (grp : Family) (d p : Nat) (all : List Bytes) (
     obtain ⟨G, j, hgrp, hG, hGd, hGp, hj, rfl⟩ := hgen _ (List.mem_cons_self ..)
     have hd' : G.d = acc.1.d := hGd.trans hd.symm
     have hp' : G.p = acc.1.p := hGp.trans hp.symm
-    have hst := decode_stable hG acc.1 hS hd' hp' j hj
+    have hst := decode_fields hG acc.1 hS hd' hp' j hj
     apply ih
     · exact fun q hq => hsub q (List.mem_cons_of_mem _ hq)
     · exact fun q hq => hgen q (List.mem_cons_of_mem _ hq)
@@ -1053,7 +1185,7 @@ theorem stable_list (dec : Decoder) (hS : Steady C dec) :
     intro hgen
     rw [List.foldl_cons]
     obtain ⟨G, j, hG, hGd, hGp, hj, rfl⟩ := hgen _ (List.mem_cons_self ..)
-    have hst := decode_stable hG dec hS hGd hGp j hj
+    have hst := decode_fields hG dec hS hGd hGp j hj
     have := ih (dec.decode C (G.packet C j)).st (decode_steady hG dec hS hGd hGp j hj)
       (by rw [hst.1, hst.2.1]; exact fun q hq => hgen q (List.mem_cons_of_mem _ hq))
     rw [hst.1, hst.2.1] at this
@@ -1106,8 +1238,11 @@ theorem lookup_discard_self (n : Nat) (sid : BitVec 32) (l : List ShardSet) :
   apply lookup_filter
   intro s hs
   rw [hs, itimediff_self]
-  simp only [Bool.not_eq_true', decide_eq_false_iff_not]
-  omega
+  have h1 : decide ((0 : Int) > ((maxShardSets * n : Nat) : Int)) = false := by
+    rw [decide_eq_false_iff_not]; omega
+  have h2 : decide ((0 : Int) < 0) = false := by decide
+  rw [h1, h2]
+  rfl
 
 /-- a further packet of the group the decoder is anchored at, the set staying incomplete: the
     set grows by that packet and the decoder stays anchored -/
@@ -1123,7 +1258,7 @@ theorem decode_anchored_step (hG : G.WF) (dec : Decoder) (hM : Matches C G dec)
     (dec.decode C (G.packet C j)).recovered = [] := by
   rw [decode_genuine_eq hG dec hM j hj]
   have hM' := hM.sampled (G.packet C j)
-  obtain ⟨h1, _, h3⟩ := place_new hG (sampled dec (G.packet C j)) hM'.n got hb hset j hj hnot
+  obtain ⟨h1, h3⟩ := place_new_st hG (sampled dec (G.packet C j)) hM'.n got hb hset j hj hnot
   have hnw : newestOf G.n (G.base / u32 G.n) (sampled dec (G.packet C j)) = G.base / u32 G.n := by
     have hb' : baseOf (G.base / u32 G.n) (sampled dec (G.packet C j)) = G.base / u32 G.n := hbase
     unfold newestOf
@@ -1260,8 +1395,8 @@ example (C : CodecNew) :
   (decode_duplicate exG_wf (exDec C [⟨0, [exG.packet C 2]⟩]) (exMatches C _) [2]
     (by decide) rfl 2 (by decide) (by decide)).1
 
-example (C : CodecNew) : ((exDec C []).decode C (exG.packet C 1)).recovered = [] :=
-  (decode_incomplete exG_wf (exDec C []) (exMatches C _) [] (by decide) rfl (by decide) 1
+example (C : CodecNew) (hC : Lawful C) : ((exDec C []).decode C (exG.packet C 1)).recovered = [] :=
+  (decode_incomplete hC exG_wf (exDec C []) (exMatches C _) [] (by decide) rfl (by decide) 1
     (by decide) (by decide)).1
 
 -- E: a link whose only group is `exG`
